@@ -258,6 +258,12 @@ def pc_cases(draw):
         'depname': draw(st.sampled_from(['bar', 'xml', 'pool'])),
         # a two-word link option the private static dependency forwards
         'dep_uopt': draw(st.booleans()),
+        # a single header produced in a sub-directory of the build directory
+        # is part of the package's interface
+        'genhdr': draw(st.booleans()),
+        # the library asks for both forms itself, whatever the configured
+        # library mode is
+        'kind': draw(st.sampled_from([None, None, 'dual'])),
         'deps': deps,
     }
 
@@ -286,21 +292,26 @@ def render_pc(case, src, depdir):
       'int bar2(void){return 0;}\n')
     w(os.path.join(src, 'foo.c'), 'int bar(void);\nint foo(void)'
       '{return 2 + bar();}\n')
+    kindkw = ', kind={!r}'.format(case['kind']) if case.get('kind') else ''
     if case['private_static_dep']:
         L.append("bar = static_library({!r}, ['bar.c']{})".format(
             case.get('depname', 'bar'),
             ", link_options=['-u', 'bar', '-u', 'bar2']"
             if case.get('dep_uopt') else ''))
-        L.append("foo = library({!r}, ['foo.c'], libs=[bar])".format(
+        L.append("foo = library({!r}, ['foo.c'], libs=[bar]{})".format(
             posixpath.join(case.get('libsub', ''),
-                           case.get('libname', 'foo'))))
+                           case.get('libname', 'foo')), kindkw))
     else:
         w(os.path.join(src, 'foo.c'),
           'int foo(void){return 42;}\n')
-        L.append("foo = library({!r}, ['foo.c'])".format(
+        L.append("foo = library({!r}, ['foo.c']{})".format(
             posixpath.join(case.get('libsub', ''),
-                           case.get('libname', 'foo'))))
+                           case.get('libname', 'foo')), kindkw))
     incs = ', '.join('inc{}'.format(i) for i in range(len(case['incdirs'])))
+    if case.get('genhdr'):
+        w(os.path.join(src, 'projcfg.h'), '#define PROJCFG 7\n')
+        L.append("cfg = copy_file('gen/inc/projcfg.h', 'projcfg.h')")
+        incs += ', cfg'
     req = [(n, _spec_str(d['public'])) if d['public'] else n
            for n, d in case['deps'].items() if d['public'] is not None]
     reqp = [(n, _spec_str(d['private'])) if d['private'] else n
@@ -324,8 +335,9 @@ def render_pc(case, src, depdir):
     # the package consumed inside the project: bfg9000 reads the flags back
     # from the file it has just written
     if in_project_consumer(case):
-        w(os.path.join(src, 'incons.c'), '#include "api0.h"\nint main(void)'
-          '{return foo() == 42 ? 0 : 1;}\n')
+        w(os.path.join(src, 'incons.c'), '#include "api0.h"\n' + (
+            '#include "projcfg.h"\n' if case.get('genhdr') else '') +
+          'int main(void){return foo() == 42 ? 0 : 1;}\n')
         L.append("executable('incons', ['incons.c'], packages=[pkg])")
     if case['auto_fill']:
         # explicitly empty fields stay empty
@@ -418,6 +430,10 @@ def prop_pcfile(rec):
         if any(' ' in o or '$' in o or "'" in o or '"' in o
                for o in case['options'] + case['incdirs']):
             labs.add('special-chars')
+        if case.get('genhdr'):
+            labs.add('generated-header-in-interface')
+        if case.get('kind'):
+            labs.add('kind-in-script:' + case['kind'])
         rec.case(labs, nontrivial=(
             [case['mode'], case['auto_fill'], sorted(case['incdirs']),
              sorted(case['options']), case['private_static_dep'],
@@ -637,6 +653,28 @@ def prop_pcfile(rec):
                             "the private static dependency forwards ['-u', "
                             "'bar', '-u', 'bar2'] but --libs --static gives "
                             '{!r}'.format(lflags), case)
+                if case.get('kind') == 'dual' and case['mode'] != 'static':
+                    # both forms were asked for by the script: the static
+                    # one exists, and a static link gets its dependency
+                    rc, out, err = pkgconf(['--libs', '--static', 'c17pkg'],
+                                           pcpath, dis)
+                    sflags = pc_split(out.strip()) or []
+                    arch = os.path.join(libdir, 'lib{}.a'.format(
+                        case.get('libname', 'foo')))
+                    if not os.path.exists(arch):
+                        raise Violation(
+                            'pc/' + what + '/dual-static-form', "library("
+                            "kind='dual') published by the package, but {} "
+                            'does not exist'.format(arch), case)
+                    if rc != 0 or (
+                            case['private_static_dep'] and '-l' + case.get(
+                                'depname', 'bar') not in sflags):
+                        raise Violation(
+                            'pc/' + what + '/libs-private', "library(kind="
+                            "'dual') with a static dependency: --libs "
+                            '--static gives {!r} (exit {}), which lacks -l{}'
+                            .format(sflags, rc, case.get('depname', 'bar')),
+                            case)
                 if static and case['private_static_dep'] and \
                         '-l' + case.get('depname', 'bar') not in lflags:
                     raise Violation('pc/' + what + '/libs-private',
@@ -647,8 +685,10 @@ def prop_pcfile(rec):
                 # a consumer builds against the package and runs
                 w = sandbox.write_file
                 cons = os.path.join(tmp, 'consumer_' + what + '.c')
-                w(cons, '#include "api0.h"\nint main(void)'
-                  '{return foo() == 42 ? 0 : 1;}\n')
+                w(cons, '#include "api0.h"\n' + (
+                    '#include "projcfg.h"\n#if PROJCFG != 7\n#error cfg\n'
+                    '#endif\n' if case.get('genhdr') else '') +
+                  'int main(void){return foo() == 42 ? 0 : 1;}\n')
                 exe = os.path.join(tmp, 'consumer_' + what)
                 cflags = [f for f in flags if not f.startswith('-DHAVE_')]
                 link = [f for f in lflags
